@@ -53,3 +53,32 @@ func retryBody(r *explore.Run, rep *report.R, sc string, history bool) {
 		rep.Sample(map[string]any{"scenario": sc, "events": trail, "final_revisions": describe(w.revisions())})
 	}
 }
+
+// liveSequenceBody: like the main scenarios, but every step runs on one live
+// store with one live revision controller and one live XR reconciler (whose
+// revision fetcher, composer and caches therefore live across steps), without
+// the transition memo: what an instance remembers from an earlier call must
+// not change what a later call does. Fault free; R1-R5 as everywhere.
+func liveSequenceBody(r *explore.Run, rep *report.R, sc string, depth int) {
+	w := newWorldLive(r, nil, true)
+	w.adopt(w.initialState())
+	w.materialize()
+	var evs []event
+	for _, e := range menu() {
+		switch e.name {
+		case "rev-reconcile", "edit=B", "edit=A", "xr-reconcile/automatic", "xr-reconcile/manual", "xr-reconcile/automatic+selector":
+			evs = append(evs, e)
+		}
+	}
+	var trail []string
+	for step := 0; step < depth; step++ {
+		e := evs[r.Free(len(evs), fmt.Sprintf("ev%d", step))]
+		trail = append(trail, e.name)
+		if e.kind == "reconcile" {
+			w.realRevReconcile(false, nil)
+			continue
+		}
+		w.doEvent(e)
+	}
+	rep.Eval(sc, report.Hash(describe(w.revisions())), report.Hash(sc, trail))
+}
